@@ -67,6 +67,8 @@ def work(tier, seed):
             if kind in ("ulp", "negated", "dyadic") and n > 7:
                 continue
             items.append({"blocks": [list(x) for x in bl], "grid": kind})
+    for n in (ot.LADDER_QUICK if tier == "quick" else ot.LADDER_THOROUGH):
+        items.append({"ladder": n})
     return items
 
 
@@ -84,6 +86,8 @@ def run(item, ctx, tier, seed):
     from score_analysis.scores import pointwise_cm
 
     b = bounds(tier)
+    if "ladder" in item:
+        return _run_ladder(item, ctx, seed)
     blocks = [tuple(x) for x in item["blocks"]]
     pos, neg, vals = ot.concretise(blocks, item["grid"], seed)
     T = ot.threshold_alphabet(vals)
@@ -303,4 +307,65 @@ def run(item, ctx, tier, seed):
                                      observed=pw[i, k].tolist(), expected=cell)
     ctx.sample({"blocks": item["blocks"], "grid": item["grid"], "pos": pos, "neg": neg,
                 "thresholds": T[:6] + ["..."], "cfgs": ot.CFGS})
+    return None
+
+
+def _run_ladder(item, ctx, seed):
+    """Much larger deterministic datasets (sizes around typical internal switches), counted with bisect."""
+    from score_analysis import Scores
+    from score_analysis.scores import pointwise_cm
+
+    n = item["ladder"]
+    for tie_free in (False, True):
+        pos, neg = ot.ladder_dataset(n, tie_free, seed)
+        spos, sneg = sorted(pos), sorted(neg)
+        T = ot.ladder_thresholds(pos, neg)
+        Tarr = np.array(T)
+        for dt in (np.float64, np.float32):
+            if dt is np.float32 and n > 5000:
+                continue
+            for cfg in ot.CFGS:
+                for ep, en in ((0, 0), (3, 5)):
+                    case = {"ladder_n": n, "tie_free": tie_free, "dtype": np.dtype(dt).name, "cfg": cfg, "easy": [ep, en],
+                            "n_pos": len(pos), "n_neg": len(neg)}
+                    ctx.state()
+                    ok, s = guarded(ctx, "construct", case, Scores, np.array(pos, dtype=dt), np.array(neg, dtype=dt), nb_easy_pos=ep,
+                                    nb_easy_neg=en, score_class=cfg[0], equal_class=cfg[1])
+                    if not ok:
+                        continue
+                    ok, m = guarded(ctx, "cm-array", case, lambda: s.cm(Tarr).matrix.tolist())
+                    if not ok:
+                        continue
+                    for k, t in enumerate(T):
+                        ctx.tick()
+                        ctx.nontrivial()
+                        exp = refs.ref_cm_sorted(spos, sneg, t, cfg[0], cfg[1], ep, en)
+                        if m[k] != exp:
+                            ctx.fail("cm-equals-counting", dict(case, threshold=t), observed=m[k], expected=exp)
+                            break
+                    for r in RATES:
+                        ok, rv = guarded(ctx, "rate-" + r, case, lambda: np.asarray(getattr(s, r)(Tarr), dtype=float).tolist())
+                        if not ok:
+                            continue
+                        for k, t in enumerate(T):
+                            want = refs.ref_rates(refs.ref_cm_sorted(spos, sneg, t, cfg[0], cfg[1], ep, en))[r]
+                            ctx.tick()
+                            if not refs.same_float(rv[k], want):
+                                ctx.fail("rate-equals-ratio-of-counts", dict(case, threshold=t, rate=r), observed=rv[k],
+                                         expected=None if want is None else float(want))
+                                break
+        if n <= 1100:
+            labels = [1] * len(pos) + [0] * len(neg)
+            ss = pos + neg
+            for cfg in ot.CFGS[::3]:
+                ok, pw = guarded(ctx, "pointwise_cm", {"ladder_n": n, "cfg": cfg}, lambda: pointwise_cm(labels, ss, Tarr, score_class=cfg[0], equal_class=cfg[1]))
+                ctx.tick()
+                if ok:
+                    tot = pw.sum(axis=0).tolist()
+                    for k, t in enumerate(T):
+                        if tot[k] != refs.ref_cm_sorted(spos, sneg, t, cfg[0], cfg[1]):
+                            ctx.fail("pointwise-sum-equals-counting", {"ladder_n": n, "cfg": cfg, "threshold": t}, observed=tot[k],
+                                     expected=refs.ref_cm_sorted(spos, sneg, t, cfg[0], cfg[1]))
+                            break
+    ctx.sample({"ladder_n": n, "thresholds": len(T)})
     return None
